@@ -30,6 +30,9 @@ class ArrRec:
     def with_term(self, t):
         return ArrRec(t, self.length, self.elem, self.writable, self.fresh, self.name)
 
+    def with_conc(self, lst):
+        return ArrRec(None, len(lst), self.elem, self.writable, self.fresh, self.name, conc=list(lst))
+
 
 class ObjRec:
     __slots__ = ("cls", "fields", "name", "lazy", "writable", "fresh")
@@ -77,6 +80,10 @@ class Obligation:
         self.name, self.kind, self.func, self.hyps, self.goal = name, kind, func, list(hyps), goal
         self.lineno, self.tags, self.note = lineno, tuple(tags), note
         self.trivial = False
+
+
+class ConcreteError(Exception):
+    """an exception CPython would raise at this point (concrete mode only)"""
 
 
 class ModV:
@@ -260,6 +267,7 @@ class Ctx:
         self.entry = None
         self.names_seen = {}
         self.call_depth = 0
+        self.concrete = False          # concrete mode (engine-vs-CPython cross-check): every value is a Python number, loops are executed
         self.cur_func = contract.name
         self.tool_notes = []
 
@@ -292,6 +300,10 @@ class Ctx:
         if st.spec:
             return
         if goal is True:
+            return
+        if self.concrete:
+            if goal is False:
+                raise ConcreteError(kind)
             return
         tb = self.contract.options.get("tier_b_kinds")
         if tb and kind in tb:
@@ -329,9 +341,9 @@ class Interp:
         rec = st.heap.get(ref.oid)
         if isinstance(rec, ArrRec):
             if attr == "shape":
-                return TupleV([rec.length])
+                return TupleV([len(rec.conc) if rec.conc is not None else rec.length])
             if attr == "size":
-                return rec.length
+                return len(rec.conc) if rec.conc is not None else rec.length
             return FuncV("arrmethod", attr, ref)
         if isinstance(rec, TableRec):
             if attr in ("loc", "iloc"):
@@ -339,6 +351,8 @@ class Interp:
             raise ToolLimit("table attribute ." + attr)
         if not isinstance(rec, ObjRec):
             raise ToolLimit("attribute .%s of %r" % (attr, rec))
+        if rec.cls.startswith("List[") and attr in ("loc", "iloc"):
+            return ref
         if attr in rec.fields:
             v = rec.fields[attr]
             if isinstance(v, MaybeUnbound):
@@ -369,6 +383,10 @@ class Interp:
     def make_input(self, st, name, ty, writable=True):
         """Create the symbolic initial value for a parameter / lazily read field."""
         if isinstance(ty, str):
+            if ty == "PosReal":
+                v = z3.Real(name)
+                st.pc.append(v > 0)        # data assumption stated by the type (e.g. CO2 concentrations are positive)
+                return v
             if ty == "Real":
                 return z3.Real(name)
             if ty == "Int":
@@ -411,10 +429,17 @@ class Interp:
             return TupleV([self.make_input(st, "%s[%d]" % (name, i), t, writable) for i, t in enumerate(ty[1])])
         raise ToolLimit("type %r" % (ty,))
 
-    def alloc_array(self, st, term, length, elem="Real", name="fresh"):
+    def alloc_array(self, st, term, length, elem="Real", name="fresh", conc=None):
         oid = self.ctx.new_oid()
-        st.heap[oid] = ArrRec(term, length, elem, writable=True, fresh=True, name="%s#%d" % (name, oid))
+        st.heap[oid] = ArrRec(term, length, elem, writable=True, fresh=True, name="%s#%d" % (name, oid), conc=conc)
         return Ref(oid)
+
+    def conc_mask(self, st, mask):
+        """concrete evaluation of a mask a <op> x : list of bools"""
+        rec = st.heap[mask.arr.oid]
+        import operator
+        f = {"<": operator.lt, "<=": operator.le, ">": operator.gt, ">=": operator.ge, "==": operator.eq, "!=": operator.ne}[mask.op]
+        return [bool(f(v, mask.rhs)) for v in rec.conc]
 
     def arr(self, st, v):
         if isinstance(v, Ref):
@@ -465,6 +490,9 @@ class Interp:
             return FuncV("repo", n)
         if n in BUILTINS:
             return FuncV("builtin", n)
+        if self.same_module_function(n):
+            self.ctx.imports[n] = (self.ctx.relpath, n)
+            return FuncV("repo", n)
         if n in ("np", "numpy"):
             return ModV("np")
         if n == "time":
@@ -479,9 +507,17 @@ class Interp:
         self.ctx.oblige("defined", False, st, node, n, SAFETY_TAG, note="name '%s' is not bound on this path" % n)
         raise ToolLimit("unbound name %s" % n)
 
+    def same_module_function(self, n):
+        if self.ctx.relpath.startswith("<"):
+            return False
+        src, tree = load_module(self.ctx.relpath)
+        return any(isinstance(x, ast.FunctionDef) and x.name == n for x in tree.body)
+
     def ev_Attribute(self, node, st):
         base = self.ev(node.value, st)
         a = node.attr
+        if isinstance(base, ModV) and base.name == "pd":
+            return Opaque("pd." + a)
         if isinstance(base, ModV):
             if base.name == "np" and a == "pi":
                 import math
@@ -491,6 +527,8 @@ class Interp:
             return self.read_field(st, base, a, node)
         if isinstance(base, TupleV) and a == "shape":
             return TupleV([len(base.items)])
+        if isinstance(base, TupleV) and a in ("sum", "flatten"):
+            return FuncV("tuplemethod", a, base)
         if isinstance(base, IdxSetV):
             return FuncV("idxmethod", a, base)
         if isinstance(base, MaskedV):
@@ -602,6 +640,14 @@ class Interp:
         # `x * 1`, `x * 1.0`: a fresh copy (numpy allocates); general elementwise only for concrete lengths
         r = ra or rb
         other = b if ra is not None else a
+        if (ra is None or ra.conc is not None) and (rb is None or rb.conc is not None) and r.conc is not None:
+            if ra is not None and rb is not None:
+                vals = [arith(op, x, y) for x, y in zip(ra.conc, rb.conc)]
+            elif ra is not None:
+                vals = [arith(op, x, other) for x in ra.conc]
+            else:
+                vals = [arith(op, other, x) for x in rb.conc]
+            return self.alloc_array(st, None, None, "Real", "elementwise", conc=[float(v) for v in vals])
         if ra is not None and rb is not None:
             n = ra.length
             if not isinstance(n, int) or not isinstance(rb.length, int) or n != rb.length:
@@ -646,12 +692,40 @@ class Interp:
                     self.ctx.oblige("index", compare(">", base.hi, base.lo), st, node, "range", SAFETY_TAG, note="IndexError: range object index out of range")
                 return arith("-", base.hi, 1)
             raise ToolLimit("range subscript %r" % (idx,))
+        if isinstance(base, IdxSetV) and st.heap[base.mask.arr.oid].conc is not None:
+            m = self.conc_mask(st, base.mask)
+            lst = [i for i, b in enumerate(m) if b]
+            idx = self.ev(sl, st)
+            if not (-len(lst) <= idx < len(lst)):
+                raise ConcreteError("IndexError")
+            return lst[idx]
         if isinstance(base, IdxSetV):
             idx = self.ev(sl, st)
             if idx == 0:
                 return self.first_index(base.mask, st, node)
             raise ToolLimit("index %r into argwhere result" % (idx,))
         rec = self.arr(st, base)
+        if rec is not None and rec.conc is not None:
+            if isinstance(sl, ast.Slice):
+                if sl.lower is None and sl.upper is None and sl.step is None:
+                    return base
+                raise ToolLimit("array slice (line %s)" % node.lineno)
+            idx = self.ev(sl, st)
+            if isinstance(idx, MaskV):
+                m = self.conc_mask(st, idx)
+                return self.alloc_array(st, None, None, rec.elem, "masked", conc=[v for v, b in zip(rec.conc, m) if b])
+            if isinstance(idx, TupleV):
+                return TupleV([rec.conc[int(i)] for i in idx.items])
+            if isinstance(idx, IdxSetV):
+                m = self.conc_mask(st, idx.mask)
+                return TupleV([rec.conc[i] for i, b in enumerate(m) if b])
+            if isinstance(idx, float) and idx == int(idx):
+                idx = int(idx)
+            if not isinstance(idx, int) or isinstance(idx, bool):
+                raise ToolLimit("concrete array index %r" % (idx,))
+            if not (-len(rec.conc) <= idx < len(rec.conc)):
+                raise ConcreteError("IndexError")
+            return rec.conc[idx]
         if rec is not None:
             if isinstance(sl, ast.Slice):
                 if sl.lower is None and sl.upper is None and sl.step is None:
@@ -667,7 +741,10 @@ class Interp:
         if isinstance(base, Ref) and isinstance(st.heap.get(base.oid), ObjRec) and st.heap[base.oid].cls.startswith("List["):
             # a list of record objects indexed by a (symbolic) position: element k is the lazily created object "<list>[k]"
             idx = self.ev(sl, st)
-            key = "[%s]" % (str(z3.simplify(z(idx))) if is_sym(idx) else str(idx))
+            if isinstance(idx, Opaque):
+                key = "[%s]" % idx.tag
+            else:
+                key = "[%s]" % (str(z3.simplify(z(idx))) if is_sym(idx) else str(idx))
             return self.read_field(st, base, key, node)
         if isinstance(base, Opaque):
             return Opaque(base.tag + "[...]")
@@ -691,6 +768,11 @@ class Interp:
         Safety: a witness must exist; we demand the sufficient condition that the LAST element satisfies the mask
         (necessary as well when the array is non-decreasing, which holds for dzsum / zMid)."""
         rec = st.heap[mask.arr.oid]
+        if rec.conc is not None:
+            m = self.conc_mask(st, mask)
+            if True not in m:
+                raise ConcreteError("IndexError")
+            return m.index(True)
         n = rec.length
         last = z3.Select(rec.term, z(arith("-", n, 1)))
         self.ctx.oblige("argwhere_witness", b_and(compare(">", n, 0), compare(mask.op, last, mask.rhs)), st, node, "", SAFETY_TAG,
@@ -705,6 +787,8 @@ class Interp:
         """np.sum(a <op> x) / a[a <op> x].shape[0]: number of elements satisfying the mask (fresh Int c, 0<=c<=n,
         characterised through sortedness when the contract provides it: see spec function count_*)."""
         rec = st.heap[mask.arr.oid]
+        if rec.conc is not None:
+            return sum(1 for b in self.conc_mask(st, mask) if b)
         n = rec.length
         rz = z(mask.rhs, True)
         if z3.is_app(rz) and rz.decl().kind() == z3.Z3_OP_ITE:
@@ -925,6 +1009,10 @@ class Interp:
             st.locals[t.id] = v
             return
         if isinstance(t, (ast.Tuple, ast.List)):
+            if isinstance(v, Opaque):
+                for k, e in enumerate(t.elts):
+                    self.assign(e, Opaque("%s[%d]" % (v.tag, k)), st, node)
+                return
             if not isinstance(v, TupleV) or len(v.items) != len(t.elts):
                 raise ToolLimit("tuple unpack mismatch at line %s" % node.lineno)
             for e, x in zip(t.elts, v.items):
@@ -941,6 +1029,18 @@ class Interp:
         if isinstance(t, ast.Subscript):
             base = self.ev(t.value, st)
             rec = self.arr(st, base)
+            if rec is not None and rec.conc is not None:
+                idx = self.ev(t.slice, st)
+                if isinstance(idx, float) and idx == int(idx):
+                    idx = int(idx)
+                if not (-len(rec.conc) <= idx < len(rec.conc)):
+                    raise ConcreteError("IndexError")
+                if not (rec.fresh or rec.writable):
+                    raise ConcreteError("ValueError: assignment destination is read-only")
+                new = list(rec.conc)
+                new[idx] = float(v) if rec.elem == "Real" else v
+                st.heap[base.oid] = ArrRec(None, len(new), rec.elem, rec.writable, rec.fresh, rec.name, conc=new)
+                return
             if rec is not None:
                 if isinstance(t.slice, ast.Slice):
                     raise ToolLimit("slice store (line %s)" % node.lineno)
@@ -951,6 +1051,13 @@ class Interp:
                                     note="store into %s, which the contract's assigns clause does not allow" % rec.name)
                 want_real = rec.elem == "Real"
                 st.heap[base.oid] = rec.with_term(z3.Store(rec.term, z(idx), z(V.bool_as_num(v), want_real)))
+                return
+            if isinstance(base, Ref) and isinstance(st.heap.get(base.oid), ObjRec) and st.heap[base.oid].cls.startswith("List["):
+                idx = self.ev(t.slice, st)
+                key = "[%s]" % (idx.tag if isinstance(idx, Opaque) else (str(z3.simplify(z(idx))) if is_sym(idx) else str(idx)))
+                lrec = st.heap[base.oid]
+                self.check_store_allowed(lrec, key, st, node)
+                st.heap[base.oid] = lrec.with_field(key, v)
                 return
             if isinstance(base, Ref) and isinstance(st.heap.get(base.oid), TableRec):
                 tr = st.heap[base.oid]
@@ -974,7 +1081,42 @@ class Interp:
         self.ctx.oblige("frame", False, st, node, "%s.%s" % (rec.name, attr), ("C12",),
                         note="store into %s.%s, which the contract's assigns clause does not allow" % (rec.name, attr))
 
+    def opaque_block(self, s):
+        blocks = self.ctx.contract.options.get("opaque_blocks")
+        if not blocks or self.ctx.cur_func.split("[")[0] != self.ctx.contract.name:
+            return None
+        txt = ast.unparse(s.test)
+        for bi, b in enumerate(blocks):
+            if txt.startswith(b["test_prefix"]):
+                self.ctx.__dict__.setdefault("opaque_used", set()).add(bi)
+                return b
+        return None
+
     def st_If(self, s, st):
+        ob = self.opaque_block(s)
+        if ob is not None:
+            # the body of this `if` is NOT verified (trusted block): its declared frame is havocked under the condition
+            c = truth(self.ev(s.test, st))
+            if c is False:
+                return [("fall", st, None)]
+            s1 = st.copy()
+            if c is not True:
+                s1.pc.append(c)
+            for loc in ob["havoc"]:
+                tgt = ast.parse(loc, mode="eval").body
+                cur = self.ev(tgt, s1.copy())
+                so = V.sort_of(cur)
+                if so is None:
+                    raise ToolLimit("opaque block: cannot havoc %s" % loc)
+                tgt.ctx = ast.Store()
+                self.assign(tgt, self.ctx.fresh("opaque_" + loc.replace(".", "_"), so), s1, s)
+            self.ctx.tool_notes.append("the body of `if %s` (line %d) is a TRUSTED block: not verified, frame %s havocked" % (ast.unparse(s.test)[:50], s.lineno, ob["havoc"]))
+            if c is True:
+                return [("fall", s1, None)]
+            s2 = st.copy()
+            s2.pc.append(z3.Not(c))
+            m = merge_two(c, s1, s2, len(st.pc))
+            return [("fall", m, None)] if m is not None else [("fall", s1, None), ("fall", s2, None)]
         c = truth(self.ev(s.test, st))
         if isinstance(c, bool):
             return self.exec_block(s.body if c else s.orelse, st)
